@@ -244,7 +244,18 @@ def run_direct(case, res):
         # a point already in all sets is returned unchanged up to rounding
         contracts.COUNTS["dykstra.feasible-start-unchanged"] += 1
         xi = dyk(P0, xin.copy(), max_iter=mi, tol=tol)
-        if np.linalg.norm(xi - xin) > 1e-14 * (1 + np.linalg.norm(xin)):
+        # "unchanged up to rounding": a projector such as c + 1.0*(x - c) rounds at the magnitude of the SET's coordinates (centre,
+        # faces), which in the scaled geometries is far above that of the point
+        mag = 1.0 + float(np.linalg.norm(xin))
+        for s_ in sets:
+            if s_["type"] == "ball":
+                mag = max(mag, float(np.linalg.norm(s_["c"])) + float(s_["r"]))
+            elif s_["type"] == "box":
+                fin = [abs(v) for v in list(s_["l"]) + list(s_["u"]) if np.isfinite(v) and abs(v) < 1e19]
+                mag = max([mag] + fin)
+            else:
+                mag = max(mag, abs(float(s_["b"])))
+        if np.linalg.norm(xi - xin) > 1e-14 * mag * np.sqrt(n):
             contracts.COUNTS["FAIL:dykstra.feasible-start-unchanged"] += 1
             res["viol"].append(V("dykstra.feasible-start-unchanged", "input %d: a point inside all sets moved by %.3g" % (k, float(np.linalg.norm(xi - xin))),
                                  sets=sets, xin=xin, out=xi))
